@@ -31,6 +31,7 @@ const (
 	cipherAES128ctr = "aes-128-ctr"
 	kdfTypeScrypt   = "scrypt"
 	kdfTypePbkdf2   = "pbkdf2"
+	derivedKeyLen   = 32
 )
 
 type WalletFile interface {
